@@ -59,23 +59,31 @@ def _resolve_sliceable(conn: Sliceable) -> Sliceable:
 
 def _list_slice(slize: Slice) -> List[Slice]:
     """Internal recursive helper for `resolve_slice`.
-    Returns a list of Slices in which each element has a concrete Signal for its parent."""
+    Returns a list of Slices in which each element has a concrete Signal for its parent,
+    (or Signals, for full-width Slices), least-significant first."""
+
+    step = slize.step
 
     # Resolve "full-width" slices to their parent Signals
-    if width(slize) == width(slize.parent):
+    if step == 1 and width(slize) == width(slize.parent):
         # Return a single-element list, after resolution
-        return [_resolve_sliceable(slize.parent)]
+        resolved = _resolve_sliceable(slize.parent)
+        return list(resolved.parts) if isinstance(resolved, Concat) else [resolved]
 
-    if isinstance(slize.parent, Signal):
+    if isinstance(slize.parent, Signal) and (step == 1 or width(slize) == 1):
         return [slize]  # Already all good! Just make a one-element list.
 
     # Do some actual work. Recursively peel off a bit at a time.
     if width(slize) == 1:
         # Base case: slice is one-bit wide. Reach into the parent signal and grab that bit.
+        # Note for one-bit-wide slices `bot` is the index of the sole selected bit.
 
         if isinstance(slize.parent, Slice):
             parent = slize.parent  # Note this is also a Slice
-            return _list_slice(parent.parent[parent.bot + slize.bot])
+            if parent.step > 0:  # Index `k` of `parent` is its own parent's `bot + k * step`
+                return _list_slice(parent.parent[parent.bot + slize.bot * parent.step])
+            # Reversed parents count down from their (exclusive) `top`
+            return _list_slice(parent.parent[parent.top - 1 + slize.bot * parent.step])
 
         if isinstance(slize.parent, Concat):
             idx = 0  # Find the `part` including our index
@@ -86,20 +94,21 @@ def _list_slice(slize: Slice) -> List[Slice]:
             msg = f"Slice {slize} is out of bounds of Concat {slize.parent}"
             raise RuntimeError(msg)
 
+        if isinstance(slize.parent, (PortRef, BundleRef)):
+            return _list_slice(_resolve_ref(slize.parent)[slize.bot])
+
         raise TypeError(f"Invalid attempt to resolve slicing on {slize}")
 
-    # Otherwise recurse in something like a "cons" pattern, splitting between the first bit and the rest.
-    step = slize.step
-    if step < 0:  # Negative step, begin from `top`
-        first = _list_slice(slize.parent[slize.top])
-        rest = slize.parent[slize.top + step : slize.bot : step]
-        rest = _list_slice(rest)
-
+    # Otherwise peel off each selected bit, in the order in which the slice selects them
+    if step < 0:  # Negative step, begin from `top - 1` and count down
+        indices = range(slize.top - 1, slize.bot - 1, step)
     else:  # Positive step, begin from `bot`
-        first = _list_slice(slize.parent[slize.bot])
-        rest = _list_slice(slize.parent[slize.bot + step : slize.top : step])
+        indices = range(slize.bot, slize.top, step)
 
-    return first + rest
+    bits = []
+    for index in indices:
+        bits.extend(_list_slice(slize.parent[index]))
+    return bits
 
 
 def _resolve_slice(slize: Slice) -> Sliceable:
@@ -145,12 +154,17 @@ def _resolve_concat(conc: Concat) -> Concat:
     if isinstance(conc.parts[0], Concat):
         # Recursively cover the first element, and all others
         first = _resolve_concat(conc.parts[0])
+        if len(conc.parts) == 1:
+            return first
         rest = _resolve_concat(Concat(*conc.parts[1:]))
         return Concat(*(first.parts + rest.parts))
 
     if isinstance(conc.parts[0], Slice):
         # Resolve everything within the Slice to a list of concrete-Signal slices
         first = _resolve_slice(conc.parts[0])
+        first = first.parts if isinstance(first, Concat) else (first,)
+        if len(conc.parts) == 1:
+            return Concat(*first)
         # Pass everything else recursively back to this method
         rest = _resolve_concat(Concat(*conc.parts[1:]))
         # And concatenate the two
